@@ -37,7 +37,7 @@ P = 'Rsa.Props.C12.'
 THEOREMS = [P + n for n in (
     'exec_frame', 'step_frame', 'step_preserves_sep', 'frame', 'frame_history',
     'fresh_producer_sep', 'fresh_producer_safe', 'copy_is_fresh',
-    'shared_dict_counterexample', 'transform_inplace_counterexample',
+    'shared_dict_counterexample', 'rebind_makes_shared_dict_harmless', 'transform_inplace_counterexample',
     'concat_reorders_argument', 'shared_write_interferes')]
 RULE = ('one case = (public callable found by introspection, argument seed, history of documented '
         'in-place operations on components of the result and of the arguments); arguments are built '
@@ -46,6 +46,7 @@ RULE = ('one case = (public callable found by introspection, argument seed, hist
         'returned and at least one in-place operation was applied to a component of either side; '
         'the pseudo-case @write-sets compares the mutators\' write sets read from the source text '
         'with the Lean compile; distinct = distinct (callable, argument seed, history)')
+DISC = 'rebind'            # write discipline of reorder / sort_by / append on the current tree
 WRITES = '@write-sets'     # pseudo-case: write sets of the mutators, source text vs Lean `compile`
 BRANCHES = ['tie:write-sets', 'call:returned', 'call:raised', 'side:result-op', 'side:source-op',
             'op:fill', 'op:reorder', 'op:sort_by', 'op:append', 'op:ds_sort_by',
@@ -243,10 +244,11 @@ def mutation_cause(diffs):
 
 
 def sharing_cause(sharing):
+    """strongest sharing class that a documented in-place operation can reach.  Since reorder /
+       sort_by / append bind new dictionaries (write discipline `rebind`), a shared descriptor
+       dictionary ('dict') is not written by any of them and is only reported as information"""
     if 'object' in sharing:
         return 'same-object'
-    if 'dict' in sharing:
-        return 'shared-descriptor-dict'
     if 'array' in sharing:
         return 'shared-array'
     return 'none'
@@ -297,12 +299,12 @@ def run_impl(case):
 
 def model_requests(case):
     if case['fn'] == WRITES:
-        return [{'op': 'c12.writes'}]
+        return [{'op': 'c12.writes', 'disc': DISC}]
     o = _obs(case)
     if o['exc'] is not None or o['heap'] is None:
         return []
     h = o['heap']
-    return [{'op': 'c12.run', 'cells': h['cells'], 'next': h['next'], 'src': h['src'], 'res': h['res'],
+    return [{'op': 'c12.run', 'disc': DISC, 'cells': h['cells'], 'next': h['next'], 'src': h['src'], 'res': h['res'],
              'hist': [{k: v for k, v in s.items() if k not in ('side', 'ci')} for s in o['hist']]}]
 
 
@@ -388,12 +390,21 @@ def oracle(case):
                 'expected': 'arguments bit-identical after the call',
                 'features': {'fn': fn, 'kind': 'mutates-argument', 'cause': mutation_cause(o.get('mutated_all') or [o['mutated']])}}
     if o['interference']:
-        i = o['interference'][0]
+        # an in-place operation other than an array write that is visible on the other side
+        # although the two sides are different objects means a *dictionary was written in place*:
+        # impossible for the current write discipline (rebind), so it is reported first
+        def cause_of(i):
+            if 'object' in o.get('sharing', []):
+                return 'same-object'
+            if i['op'] == 'fill':
+                return 'shared-array'
+            return 'shared-descriptor-dict'
+        ranked = sorted(o['interference'], key=lambda i: (cause_of(i) != 'shared-descriptor-dict', i['step']))
+        i = ranked[0]
         return {'what': f'{fn}: result and argument are not independent ({i["op"]})',
                 'observed': i, 'expected': f'{i["changed"]} unchanged by an in-place operation on the {i["on"]}',
                 'features': {'fn': fn, 'kind': 'interference', 'op': i['op'], 'on': i['on'],
-                             'cause': sharing_cause(o.get('sharing', [])),
-                             'sharing': '+'.join(o.get('sharing', []))}}
+                             'cause': cause_of(i), 'sharing': '+'.join(o.get('sharing', []))}}
     return None
 
 
@@ -434,7 +445,9 @@ def shrink(case, still_fails):
     if o['mutated']:
         c = dict(base, hist=[])
         return c if still_fails(c) else case
-    for i in o['interference']:
+    obj = 'object' in o.get('sharing', [])
+    # same ranking as the oracle: a dictionary written in place is the most telling step
+    for i in sorted(o['interference'], key=lambda i: (obj or i['op'] == 'fill', i['step'])):
         s = o['hist'][i['step']]
         op = {k: v for k, v in s.items() if k not in ('root', 'side', 'ci', 'vals', 'rows', 'desc')}
         c = dict(base, hist=[[s['side'], s['ci'], op]])
